@@ -281,6 +281,24 @@ type c03env struct {
 	capped bool // this sequence: W2 and W4 take 40 bytes per Write and report no error
 }
 
+// c03reentrantW issues an Error record through its own logger from inside its first Write.
+type c03reentrantW struct {
+	lg    *slog.Entry
+	id    string
+	outer int
+	busy  bool
+}
+
+func (w *c03reentrantW) Write(p []byte) (int, error) {
+	w.outer++
+	if !w.busy {
+		w.busy = true
+		w.lg.Error(w.id)
+		w.busy = false
+	}
+	return len(p), nil
+}
+
 // bareW keeps what it is handed and nothing else.
 type bareW struct{ buf []byte }
 
@@ -561,6 +579,29 @@ func (e *c03env) runSeq(kind string, viaOpts bool, ops []wop, rp func(k string, 
 			}
 		}
 	}()
+	// a destination that, from inside its Write, issues a record of ANOTHER class through the same logger (an alerting
+	// sink that reports what it sees): that record has destinations of its own and reaches them
+	{
+		e.seq++
+		rl := slog.New(fmt.Sprintf("reentrant%d", e.seq)).Root()
+		rl.SetColorMode(false)
+		rl.SetLevel(slog.AlwaysLevel)
+		inner := fmt.Sprintf("inner-%d-", e.seq)
+		rw := &c03reentrantW{lg: rl, id: inner}
+		rl.SetWriter(rw).SetErrorWriter(e.pool[0])
+		e.log.Reset()
+		rl.Info(fmt.Sprintf("outer-%d-", e.seq))
+		gotInner := 0
+		for _, ev := range e.log.Writes("W0") {
+			if bytes.Contains(ev.Data, []byte(inner)) {
+				gotInner++
+			}
+		}
+		rp("records_issued_from_inside_a_destination_of_the_same_logger", 1)
+		if rw.outer != 1 || gotInner != 1 {
+			return []c03viol{{"routing", fmt.Sprintf("a normal destination that issues an Error record through the same logger from inside its Write: it was handed the outer record %d time(s) (expected 1), the error destination got the inner record %d time(s) (expected 1)", rw.outer, gotInner)}}
+		}
+	}
 	rp("sequences_followed_by_a_Close_of_another_loggers_own_default_devices", 1)
 	fresh := slog.New(fmt.Sprintf("fresh-after-close%d", e.seq)).Root()
 	fresh.SetColorMode(false)
